@@ -1,7 +1,215 @@
+// vnet — see vnet.h. Compiled without sanitizers.
 #include "vnet.h"
 #include "vsched_internal.h"
+#include <dlfcn.h>
+#include <errno.h>
+#include <stdarg.h>
+#include <stdio.h>
+#include <string.h>
+#include <unistd.h>
+#include <sys/ioctl.h>
+#include <sys/select.h>
+#include <sys/socket.h>
+#include <sys/un.h>
+#include <netinet/in.h>
+#include <arpa/inet.h>
+
 namespace vnet {
-void reset(int) {}
-int open_fds() { return 0; }
-uint64_t state_hash() { return 0; }
+
+enum { BASE = 900, N = 100 };
+enum { FREE, FRESH, BOUND, LISTENING, CONNECTED };
+struct VS {
+	int state, family, port; char path[108];
+	int peer;                 // index of the connected peer, -1 none
+	std::string in;           // bytes that can be read now
+	bool eof;                 // no more bytes will arrive after `in`
+	bool peer_gone;           // the peer endpoint was closed (writes fail)
+	std::vector<int> backlog; // listening: accepted-side endpoints waiting for accept()
+	bool scripted; std::vector<std::string> script; size_t next; int out_slot;
+	int idle;                 // consecutive non-consuming operations at end of stream
+};
+static VS S[N];
+static bool on = false;
+static int cap = 1 << 20, rmax = 0, smax = 0, bad_ops = 0;
+static std::string outs[N]; static int nouts = 0;
+static int spin_limit = 0; static void (*spin_handler)(const char*) = 0;
+
+static bool isv(int fd) { return fd >= BASE && fd < BASE + N; }
+static VS* get(int fd) { if (!isv(fd)) return 0; VS* s = &S[fd - BASE]; if (s->state == FREE) { bad_ops++; return 0; } return s; }
+static void clear(VS& s) { s.state = FREE; s.family = 0; s.port = 0; s.path[0] = 0; s.peer = -1; s.in.clear(); s.eof = false; s.peer_gone = false; s.backlog.clear(); s.scripted = false; s.script.clear(); s.next = 0; s.out_slot = -1; s.idle = 0; }
+static int alloc() { for (int i = 0; i < N; i++) if (S[i].state == FREE) { clear(S[i]); S[i].state = FRESH; return i; } return -1; }
+
+void enable(bool b) { on = b; }
+void reset(int c) { for (int i = 0; i < N; i++) clear(S[i]); cap = c; bad_ops = 0; nouts = 0; for (int i = 0; i < N; i++) outs[i].clear(); }
+void set_limits(int r, int s) { rmax = r; smax = s; }
+int open_fds() { int n = 0; for (int i = 0; i < N; i++) if (S[i].state != FREE) n++; return n; }
+int misuse() { return bad_ops; }
+void set_spin_limit(int polls, void (*h)(const char*)) { spin_limit = polls; spin_handler = h; }
+int scripted(const std::vector<std::string>& chunks) {
+	int i = alloc(); if (i < 0) return -1;
+	VS& s = S[i]; s.state = CONNECTED; s.family = AF_INET; s.scripted = true; s.script = chunks; s.next = 0; s.out_slot = nouts++; s.port = 40000 + i;
+	if (chunks.empty()) s.eof = true;
+	return BASE + i;
 }
+const std::string& written(int fd) { static std::string empty; if (!isv(fd)) return empty; for (int i = 0; i < N; i++) { } int slot = S[fd - BASE].out_slot; return slot >= 0 ? outs[slot] : empty; }
+static uint64_t mixh(uint64_t h, uint64_t v) { h ^= v + 0x9e3779b97f4a7c15ULL + (h << 6) + (h >> 2); return h; }
+uint64_t state_hash() { uint64_t h = 7; for (int i = 0; i < N; i++) if (S[i].state != FREE) { h = mixh(h, i * 16 + S[i].state); h = mixh(h, S[i].in.size() * 4 + S[i].eof * 2 + S[i].peer_gone); for (size_t k = 0; k < S[i].in.size(); k++) h = mixh(h, (unsigned char)S[i].in[k]); h = mixh(h, S[i].backlog.size()); } return h; }
+
+// scripted arrival: the next chunk shows up when the reader has drained everything and looks again
+static void fill(VS& s) {
+	if (!s.scripted || !s.in.empty() || s.eof) return;
+	if (s.next < s.script.size()) s.in += s.script[s.next++];
+	if (s.next >= s.script.size()) s.eof = true;
+}
+static void progress(VS& s) { s.idle = 0; }
+static void idle_op(VS& s, const char* what) { if (s.eof && s.in.empty() && spin_limit && ++s.idle > spin_limit && spin_handler) { s.idle = 0; spin_handler(what); } }
+
+static bool readable(VS& s) { fill(s); return !s.in.empty() || s.eof || (s.state == LISTENING && !s.backlog.empty()); }
+static bool pred_readable(void* p) { return readable(*(VS*)p); }
+static bool pred_backlog(void* p) { return !((VS*)p)->backlog.empty(); }
+static bool pred_space(void* p) { VS& s = *(VS*)p; return s.peer < 0 || s.peer_gone || (int)S[s.peer].in.size() < cap; }
+struct SelArg { int n; VS* v[N]; };
+static bool pred_any(void* p) { SelArg* a = (SelArg*)p; for (int i = 0; i < a->n; i++) if (readable(*a->v[i])) return true; return false; }
+
+static void point() { if (vsched::is_managed()) vsched::block_until(0, 0, -1, 20, false); }
+
+} // namespace vnet
+using namespace vnet;
+
+#define REAL(ret, name, ...) static ret (*real)(__VA_ARGS__) = 0; if (!real) *(void**)&real = dlsym(RTLD_NEXT, #name)
+
+extern "C" int socket(int domain, int type, int proto) {
+	REAL(int, socket, int, int, int);
+	if (!on || (type & 0xf) != SOCK_STREAM || (domain != AF_INET && domain != AF_UNIX && domain != AF_INET6)) return real(domain, type, proto);
+	int i = alloc(); if (i < 0) { errno = EMFILE; return -1; }
+	S[i].family = domain;
+	return BASE + i;
+}
+extern "C" int close(int fd) {
+	REAL(int, close, int);
+	if (!isv(fd)) return real(fd);
+	VS* s = get(fd); if (!s) { errno = EBADF; return -1; }
+	point();
+	if (s->peer >= 0 && S[s->peer].state != FREE && S[s->peer].peer == fd - BASE) { S[s->peer].eof = true; S[s->peer].peer_gone = true; S[s->peer].peer = -1; }
+	for (size_t k = 0; k < s->backlog.size(); k++) { VS& b = S[s->backlog[k]]; if (b.peer >= 0) { S[b.peer].eof = true; S[b.peer].peer_gone = true; S[b.peer].peer = -1; } clear(b); }
+	int slot = s->out_slot;
+	clear(*s);
+	s->out_slot = slot; // written() stays readable until the slot is reused by reset()
+	return 0;
+}
+extern "C" int shutdown(int fd, int how) {
+	REAL(int, shutdown, int, int);
+	if (!isv(fd)) return real(fd, how);
+	VS* s = get(fd); if (!s) { errno = EBADF; return -1; }
+	if (how != SHUT_RD && s->peer >= 0) S[s->peer].eof = true;
+	return 0;
+}
+static int addr_key(const struct sockaddr* a, char* path) {
+	path[0] = 0;
+	if (a->sa_family == AF_UNIX) { strncpy(path, ((const sockaddr_un*)a)->sun_path, 107); path[107] = 0; return 0; }
+	if (a->sa_family == AF_INET6) return ntohs(((const sockaddr_in6*)a)->sin6_port);
+	return ntohs(((const sockaddr_in*)a)->sin_port);
+}
+extern "C" int bind(int fd, const struct sockaddr* a, socklen_t len) {
+	REAL(int, bind, int, const struct sockaddr*, socklen_t);
+	if (!isv(fd)) return real(fd, a, len);
+	VS* s = get(fd); if (!s) { errno = EBADF; return -1; }
+	char path[108]; int port = addr_key(a, path);
+	for (int i = 0; i < N; i++) if (&S[i] != s && (S[i].state == BOUND || S[i].state == LISTENING) && S[i].port == port && !strcmp(S[i].path, path)) { errno = EADDRINUSE; return -1; }
+	s->port = port; strcpy(s->path, path); s->state = BOUND;
+	return 0;
+}
+extern "C" int listen(int fd, int n) {
+	REAL(int, listen, int, int);
+	if (!isv(fd)) return real(fd, n);
+	VS* s = get(fd); if (!s) { errno = EBADF; return -1; }
+	s->state = LISTENING;
+	return 0;
+}
+extern "C" int connect(int fd, const struct sockaddr* a, socklen_t len) {
+	REAL(int, connect, int, const struct sockaddr*, socklen_t);
+	if (!isv(fd)) return real(fd, a, len);
+	VS* s = get(fd); if (!s) { errno = EBADF; return -1; }
+	point();
+	char path[108]; int port = addr_key(a, path);
+	for (int i = 0; i < N; i++) if (S[i].state == LISTENING && S[i].port == port && !strcmp(S[i].path, path)) {
+		int j = alloc(); if (j < 0) { errno = EMFILE; return -1; }
+		S[j].state = CONNECTED; S[j].family = s->family; S[j].port = port; S[j].peer = fd - BASE;
+		s->state = CONNECTED; s->peer = j; if (!s->port) s->port = 50000 + (fd - BASE);
+		S[i].backlog.push_back(j);
+		return 0;
+	}
+	errno = ECONNREFUSED; return -1;
+}
+extern "C" int accept(int fd, struct sockaddr* a, socklen_t* len) {
+	REAL(int, accept, int, struct sockaddr*, socklen_t*);
+	if (!isv(fd)) return real(fd, a, len);
+	VS* s = get(fd); if (!s || s->state != LISTENING) { errno = EBADF; return -1; }
+	if (vsched::is_managed()) vsched::block_until(pred_backlog, s, -1, 21, true);
+	if (s->state != LISTENING || s->backlog.empty()) { errno = EAGAIN; return -1; }
+	int j = s->backlog.front(); s->backlog.erase(s->backlog.begin());
+	return BASE + j;
+}
+static ssize_t vread(int fd, void* buf, size_t n) {
+	VS* s = get(fd); if (!s) { errno = EBADF; return -1; }
+	if (vsched::is_managed()) vsched::block_until(pred_readable, s, -1, 22, true);
+	s = get(fd); if (!s) { errno = EBADF; return -1; }
+	fill(*s);
+	if (s->in.empty()) { if (s->eof) { idle_op(*s, "read at end of stream"); return 0; } errno = EAGAIN; return -1; }
+	size_t k = s->in.size() < n ? s->in.size() : n;
+	if (rmax && k > (size_t)rmax) k = rmax;
+	memcpy(buf, s->in.data(), k); s->in.erase(0, k);
+	progress(*s);
+	return (ssize_t)k;
+}
+static ssize_t vsend(int fd, const void* buf, size_t n) {
+	VS* s = get(fd); if (!s) { errno = EBADF; return -1; }
+	if (s->scripted) { point(); size_t k = smax && n > (size_t)smax ? smax : n; outs[s->out_slot].append((const char*)buf, k); return (ssize_t)k; }
+	if (vsched::is_managed()) vsched::block_until(pred_space, s, -1, 23, true);
+	s = get(fd); if (!s) { errno = EBADF; return -1; }
+	if (s->peer < 0 || s->peer_gone) { errno = EPIPE; return -1; }
+	VS& p = S[s->peer];
+	size_t room = cap > (int)p.in.size() ? cap - p.in.size() : 0;
+	size_t k = n < room ? n : room;
+	if (smax && k > (size_t)smax) k = smax;
+	if (k == 0 && n > 0) { errno = EAGAIN; return -1; }
+	p.in.append((const char*)buf, k);
+	return (ssize_t)k;
+}
+extern "C" ssize_t read(int fd, void* buf, size_t n) { REAL(ssize_t, read, int, void*, size_t); return isv(fd) ? vread(fd, buf, n) : real(fd, buf, n); }
+extern "C" ssize_t recv(int fd, void* buf, size_t n, int fl) { REAL(ssize_t, recv, int, void*, size_t, int); return isv(fd) ? vread(fd, buf, n) : real(fd, buf, n, fl); }
+extern "C" ssize_t write(int fd, const void* buf, size_t n) { REAL(ssize_t, write, int, const void*, size_t); return isv(fd) ? vsend(fd, buf, n) : real(fd, buf, n); }
+extern "C" ssize_t send(int fd, const void* buf, size_t n, int fl) { REAL(ssize_t, send, int, const void*, size_t, int); return isv(fd) ? vsend(fd, buf, n) : real(fd, buf, n, fl); }
+extern "C" int ioctl(int fd, unsigned long req, ...) {
+	va_list ap; va_start(ap, req); void* arg = va_arg(ap, void*); va_end(ap);
+	REAL(int, ioctl, int, unsigned long, ...);
+	if (!isv(fd)) return real(fd, req, arg);
+	VS* s = get(fd); if (!s) { errno = EBADF; return -1; }
+	if (req == FIONREAD) { point(); s = get(fd); if (!s) { errno = EBADF; return -1; } fill(*s); if (s->in.empty()) idle_op(*s, "available() polled at end of stream"); *(int*)arg = (int)s->in.size(); if (sizeof(long) > sizeof(int)) ((int*)arg)[1] = 0; return 0; }
+	return 0;
+}
+extern "C" int select(int nfds, fd_set* r, fd_set* w, fd_set* e, struct timeval* tv) {
+	REAL(int, select, int, fd_set*, fd_set*, fd_set*, struct timeval*);
+	bool anyv = false;
+	if (r) for (int fd = BASE; fd < nfds && fd < BASE + N; fd++) if (FD_ISSET(fd, r)) anyv = true;
+	if (!anyv) return real(nfds, r, w, e, tv);
+	SelArg a; a.n = 0;
+	for (int fd = BASE; fd < nfds && fd < BASE + N; fd++) if (FD_ISSET(fd, r)) { VS* s = get(fd); if (!s) { errno = EBADF; return -1; } a.v[a.n++] = s; }
+	double to = tv ? tv->tv_sec + tv->tv_usec * 1e-6 : -1;
+	if (vsched::is_managed()) vsched::block_until(pred_any, &a, to, 24, true);
+	int cnt = 0;
+	fd_set out; FD_ZERO(&out);
+	for (int fd = BASE; fd < nfds && fd < BASE + N; fd++) if (FD_ISSET(fd, r)) { VS* s = &S[fd - BASE]; if (s->state != FREE && readable(*s)) { FD_SET(fd, &out); cnt++; if (s->eof && s->in.empty()) idle_op(*s, "select() polled at end of stream"); } }
+	*r = out; if (w) FD_ZERO(w); if (e) FD_ZERO(e);
+	return cnt;
+}
+extern "C" int setsockopt(int fd, int l, int o, const void* v, socklen_t n) { REAL(int, setsockopt, int, int, int, const void*, socklen_t); if (!isv(fd)) return real(fd, l, o, v, n); return get(fd) ? 0 : (errno = EBADF, -1); }
+extern "C" int getsockopt(int fd, int l, int o, void* v, socklen_t* n) { REAL(int, getsockopt, int, int, int, void*, socklen_t*); if (!isv(fd)) return real(fd, l, o, v, n); if (!get(fd)) { errno = EBADF; return -1; } if (v && n && *n >= sizeof(int)) *(int*)v = 0; return 0; }
+static int fill_addr(VS* s, struct sockaddr* a, socklen_t* len, int port) {
+	if (!s) { errno = EBADF; return -1; }
+	sockaddr_in in; memset(&in, 0, sizeof in); in.sin_family = AF_INET; in.sin_port = htons((uint16_t)port); in.sin_addr.s_addr = htonl(0x7f000001);
+	socklen_t k = *len < sizeof in ? *len : (socklen_t)sizeof in; memcpy(a, &in, k); *len = sizeof in;
+	return 0;
+}
+extern "C" int getpeername(int fd, struct sockaddr* a, socklen_t* len) { REAL(int, getpeername, int, struct sockaddr*, socklen_t*); if (!isv(fd)) return real(fd, a, len); VS* s = get(fd); return fill_addr(s, a, len, s && s->peer >= 0 ? S[s->peer].port : 40001); }
+extern "C" int getsockname(int fd, struct sockaddr* a, socklen_t* len) { REAL(int, getsockname, int, struct sockaddr*, socklen_t*); if (!isv(fd)) return real(fd, a, len); VS* s = get(fd); return fill_addr(s, a, len, s ? s->port : 0); }
